@@ -10,16 +10,18 @@
        (the model's noalias loop reads the CURRENT store while writing, as kernels::assign does);
      * max/min (and thus norm_inf) return an attained bound for every non-empty operand; sum, norms,
        trace, inner_prod are finite sums of the denotation;
-   NOT YET PROVED here (in progress, coq/wip/C01OptProofs.v): that the rewrite rules of
-   detail/expression_optimizers.hpp (C01Opt.v, one arm per C++ specialisation; tied structurally to the header by
-   tools/c01_rules.py on every run) preserve shape and element-wise denotation.  Their effect is covered by the
-   correspondence run (the C++ applies them, the extracted interpreter does not) until the theorems land.
+     * the rewrite rules of detail/expression_optimizers.hpp (C01Opt.v, one arm per C++ specialisation, tied
+       structurally to the header by tools/c01_rules.py on every run; table `fx = true` = the code as repaired by the
+       `fix:` commits, with the one exception of known finding C01-RANGEDIAG) preserve well-formedness, shape and the
+       element-wise denotation, for every fuel, every store and every well-formed expression: the C01_opt_*_sound
+       theorems at the end of this file; the table as it was BEFORE the repairs (fx = false) is refuted rule by rule
+       with concrete witnesses (C01_opt_*_refuted), among them the still unrepaired range<diagonal_matrix> rule;
    COMPARED / MONITORED only (tools/c01.py): that the C++ implements this model — generated programs,
    exact comparison of compiled C++ (long/double, default kernels and CBLAS) against the extracted
    interpreter and an independent evaluator; dense block kernels, OpenBLAS, sparse containers.
    `vden`/`mden` ARE the documented meaning (quickref/remora.rst), written as Gallina. *)
 From Coq Require Import ZArith List Bool Arith Lia.
-From SharkV Require Import C01Model C01Proofs.
+From SharkV Require Import C01Model C01Proofs C01Opt C01OptProofs.
 Import ListNotations.
 Open Scope Z_scope.
 
@@ -128,3 +130,208 @@ Example C01_wf_examples :
   stmt_ok (SAssignV false OpSet (VVar 0 3) (VMv 1 (MVar 0 3 3) (VVar 0 3))) = true /\
   stmt_ok (SAssignV true OpAdd (VRow (MVar 0 3 3) 1) (VCol (MVar 0 3 3) 2)) = false.
 Proof. repeat split. Qed.
+
+(* ---- rewrite table of detail/expression_optimizers.hpp (C01Opt.v) *)
+Theorem C01_opt_vrange_sound : forall (s : env) (fuel : nat) (e : vexp) (a b : nat),
+  vwf (VRange e a b) = true ->
+  vwf (opt_vrange true s fuel e a b) = true /\
+  vsize (opt_vrange true s fuel e a b) = vsize (VRange e a b) /\
+  forall i, (i < vsize (VRange e a b))%nat ->
+    vden s (opt_vrange true s fuel e a b) i = vden s (VRange e a b) i.
+Proof. exact opt_vrange_sound. Qed.
+Print Assumptions C01_opt_vrange_sound.
+
+Theorem C01_opt_mtrans_sound : forall (s : env) (fuel : nat) (m : mexp),
+  mwf (MTrans m) = true ->
+  mwf (opt_mtrans true s fuel m) = true /\
+  mrows (opt_mtrans true s fuel m) = mrows (MTrans m) /\
+  mcols (opt_mtrans true s fuel m) = mcols (MTrans m) /\
+  forall i j, (i < mrows (MTrans m))%nat -> (j < mcols (MTrans m))%nat ->
+    mden s (opt_mtrans true s fuel m) i j = mden s (MTrans m) i j.
+Proof. exact opt_mtrans_sound. Qed.
+Print Assumptions C01_opt_mtrans_sound.
+
+Theorem C01_opt_mrow_sound : forall (s : env) (fuel : nat) (m : mexp) (r : nat),
+  vwf (VRow m r) = true ->
+  vwf (opt_mrow true s fuel m r) = true /\
+  vsize (opt_mrow true s fuel m r) = vsize (VRow m r) /\
+  forall i, (i < vsize (VRow m r))%nat ->
+    vden s (opt_mrow true s fuel m r) i = vden s (VRow m r) i.
+Proof. exact opt_mrow_sound. Qed.
+Print Assumptions C01_opt_mrow_sound.
+
+Theorem C01_opt_mdiag_sound : forall (s : env) (fuel : nat) (m : mexp),
+  vwf (VDiag m) = true ->
+  vwf (opt_mdiag true s fuel m) = true /\
+  vsize (opt_mdiag true s fuel m) = vsize (VDiag m) /\
+  forall i, (i < vsize (VDiag m))%nat ->
+    vden s (opt_mdiag true s fuel m) i = vden s (VDiag m) i.
+Proof. exact opt_mdiag_sound. Qed.
+Print Assumptions C01_opt_mdiag_sound.
+
+Theorem C01_opt_mrange_sound : forall (s : env) (fuel : nat) (m : mexp) (a b c d : nat),
+  mwf (MRange m a b c d) = true ->
+  mwf (opt_mrange true s fuel m a b c d) = true /\
+  mrows (opt_mrange true s fuel m a b c d) = mrows (MRange m a b c d) /\
+  mcols (opt_mrange true s fuel m a b c d) = mcols (MRange m a b c d) /\
+  forall i j, (i < mrows (MRange m a b c d))%nat -> (j < mcols (MRange m a b c d))%nat ->
+    mden s (opt_mrange true s fuel m a b c d) i j = mden s (MRange m a b c d) i j.
+Proof. exact opt_mrange_sound. Qed.
+Print Assumptions C01_opt_mrange_sound.
+
+Theorem C01_opt_mrows_sound : forall (s : env) (fuel : nat) (m : mexp) (a b : nat),
+  mwf (MRows m a b) = true ->
+  mwf (opt_mrows true s fuel m a b) = true /\
+  mrows (opt_mrows true s fuel m a b) = mrows (MRows m a b) /\
+  mcols (opt_mrows true s fuel m a b) = mcols (MRows m a b) /\
+  forall i j, (i < mrows (MRows m a b))%nat -> (j < mcols (MRows m a b))%nat ->
+    mden s (opt_mrows true s fuel m a b) i j = mden s (MRows m a b) i j.
+Proof. exact opt_mrows_sound. Qed.
+Print Assumptions C01_opt_mrows_sound.
+
+Theorem C01_opt_vscale_sound : forall (s : env) (fuel : nat) (c : Z) (e : vexp),
+  vwf (VScale c e) = true ->
+  vwf (opt_vscale true s fuel c e) = true /\
+  vsize (opt_vscale true s fuel c e) = vsize (VScale c e) /\
+  forall i, (i < vsize (VScale c e))%nat ->
+    vden s (opt_vscale true s fuel c e) i = vden s (VScale c e) i.
+Proof. exact opt_vscale_sound. Qed.
+Print Assumptions C01_opt_vscale_sound.
+
+Theorem C01_opt_mscale_sound : forall (s : env) (fuel : nat) (c : Z) (m : mexp),
+  mwf (MScale c m) = true ->
+  mwf (opt_mscale true s fuel c m) = true /\
+  mrows (opt_mscale true s fuel c m) = mrows (MScale c m) /\
+  mcols (opt_mscale true s fuel c m) = mcols (MScale c m) /\
+  forall i j, (i < mrows (MScale c m))%nat -> (j < mcols (MScale c m))%nat ->
+    mden s (opt_mscale true s fuel c m) i j = mden s (MScale c m) i j.
+Proof. exact opt_mscale_sound. Qed.
+Print Assumptions C01_opt_mscale_sound.
+
+Theorem C01_opt_mvprod_sound : forall (s : env) (fuel : nat) (m : mexp) (v : vexp),
+  vwf (VMv 1 m v) = true ->
+  vwf (opt_mvprod true s fuel m v) = true /\
+  vsize (opt_mvprod true s fuel m v) = vsize (VMv 1 m v) /\
+  forall i, (i < vsize (VMv 1 m v))%nat ->
+    vden s (opt_mvprod true s fuel m v) i = vden s (VMv 1 m v) i.
+Proof. exact opt_mvprod_sound. Qed.
+Print Assumptions C01_opt_mvprod_sound.
+
+Theorem C01_opt_mmprod_sound : forall (s : env) (fuel : nat) (m1 m2 : mexp),
+  mwf (MProd 1 m1 m2) = true ->
+  mwf (opt_mmprod true s fuel m1 m2) = true /\
+  mrows (opt_mmprod true s fuel m1 m2) = mrows (MProd 1 m1 m2) /\
+  mcols (opt_mmprod true s fuel m1 m2) = mcols (MProd 1 m1 m2) /\
+  forall i j, (i < mrows (MProd 1 m1 m2))%nat -> (j < mcols (MProd 1 m1 m2))%nat ->
+    mden s (opt_mmprod true s fuel m1 m2) i j = mden s (MProd 1 m1 m2) i j.
+Proof. exact opt_mmprod_sound. Qed.
+Print Assumptions C01_opt_mmprod_sound.
+
+Theorem C01_opt_vunary_sound : forall (s : env) (e : vexp) (g : ufun),
+  vwf (VUn g e) = true ->
+  vwf (opt_vunary e g) = true /\
+  vsize (opt_vunary e g) = vsize (VUn g e) /\
+  forall i, (i < vsize (VUn g e))%nat -> vden s (opt_vunary e g) i = vden s (VUn g e) i.
+Proof. exact opt_vunary_sound. Qed.
+Print Assumptions C01_opt_vunary_sound.
+
+Theorem C01_opt_munary_sound : forall (s : env) (m : mexp) (g : ufun),
+  mwf (MUn g m) = true ->
+  mwf (opt_munary m g) = true /\
+  mrows (opt_munary m g) = mrows (MUn g m) /\
+  mcols (opt_munary m g) = mcols (MUn g m) /\
+  forall i j, (i < mrows (MUn g m))%nat -> (j < mcols (MUn g m))%nat ->
+    mden s (opt_munary m g) i j = mden s (MUn g m) i j.
+Proof. exact opt_munary_sound. Qed.
+Print Assumptions C01_opt_munary_sound.
+
+Theorem C01_opt_fold_set_sound : forall (s : env) (fuel : nat) (colmajor : bool) (k : fkind) (g : ufun) (m : mexp),
+  let surface := VFold k g (if colmajor then MTrans m else m) in
+  vwf surface = true ->
+  vwf (opt_fold_set true s fuel colmajor k g m) = true /\
+  vsize (opt_fold_set true s fuel colmajor k g m) = vsize surface /\
+  forall i, (i < vsize surface)%nat ->
+    vden s (opt_fold_set true s fuel colmajor k g m) i = vden s surface i.
+Proof. exact opt_fold_set_sound. Qed.
+Print Assumptions C01_opt_fold_set_sound.
+
+Theorem C01_opt_vrange_fold_rows_variant_sound : forall (s : env) (fuel : nat) (k : fkind) (g : ufun) (m : mexp) (a b : nat),
+  let surface := VRange (VFold k g m) a b in
+  let r := VFold k g (opt_mrows true s fuel m a b) in
+  vwf surface = true ->
+  vwf r = true /\ vsize r = vsize surface /\
+  forall i, (i < vsize surface)%nat -> vden s r i = vden s surface i.
+Proof. exact opt_vrange_fold_rows_variant_sound. Qed.
+Print Assumptions C01_opt_vrange_fold_rows_variant_sound.
+
+Theorem C01_opt_vrange_mvprod_refuted :
+  exists s fuel e a b i,
+    vwf (VRange e a b) = true /\ (i < vsize (VRange e a b))%nat /\
+    vden s (opt_vrange false s fuel e a b) i <> vden s (VRange e a b) i.
+Proof. exact opt_vrange_mvprod_refuted. Qed.
+Print Assumptions C01_opt_vrange_mvprod_refuted.
+
+Theorem C01_opt_vrange_fold_refuted :
+  exists s fuel e a b,
+    vwf (VRange e a b) = true /\ vsize (opt_vrange false s fuel e a b) <> vsize (VRange e a b).
+Proof. exact opt_vrange_fold_refuted. Qed.
+Print Assumptions C01_opt_vrange_fold_refuted.
+
+Theorem C01_opt_mtrans_mmprod_refuted :
+  exists s fuel m i j,
+    mwf (MTrans m) = true /\ (i < mrows (MTrans m))%nat /\ (j < mcols (MTrans m))%nat /\
+    mden s (opt_mtrans false s fuel m) i j <> mden s (MTrans m) i j.
+Proof. exact opt_mtrans_mmprod_refuted. Qed.
+Print Assumptions C01_opt_mtrans_mmprod_refuted.
+
+Theorem C01_opt_mrow_mmprod_refuted :
+  exists s fuel m r i,
+    vwf (VRow m r) = true /\ (i < vsize (VRow m r))%nat /\
+    vden s (opt_mrow false s fuel m r) i <> vden s (VRow m r) i.
+Proof. exact opt_mrow_mmprod_refuted. Qed.
+Print Assumptions C01_opt_mrow_mmprod_refuted.
+
+Theorem C01_opt_mrange_mmprod_refuted :
+  exists s fuel m a b c d i j,
+    mwf (MRange m a b c d) = true /\ (i < mrows (MRange m a b c d))%nat /\ (j < mcols (MRange m a b c d))%nat /\
+    mden s (opt_mrange false s fuel m a b c d) i j <> mden s (MRange m a b c d) i j.
+Proof. exact opt_mrange_mmprod_refuted. Qed.
+Print Assumptions C01_opt_mrange_mmprod_refuted.
+
+Theorem C01_opt_mrows_mmprod_refuted :
+  exists s fuel m a b i j,
+    mwf (MRows m a b) = true /\ (i < mrows (MRows m a b))%nat /\ (j < mcols (MRows m a b))%nat /\
+    mden s (opt_mrows false s fuel m a b) i j <> mden s (MRows m a b) i j.
+Proof. exact opt_mrows_mmprod_refuted. Qed.
+Print Assumptions C01_opt_mrows_mmprod_refuted.
+
+Theorem C01_opt_mrows_repeat_refuted :
+  exists s fuel m a b i j,
+    mwf (MRows m a b) = true /\
+    mrows (opt_mrows false s fuel m a b) = mrows (MRows m a b) /\
+    mcols (opt_mrows false s fuel m a b) = mcols (MRows m a b) /\
+    (i < mrows (MRows m a b))%nat /\ (j < mcols (MRows m a b))%nat /\
+    mden s (opt_mrows false s fuel m a b) i j <> mden s (MRows m a b) i j.
+Proof. exact opt_mrows_repeat_refuted. Qed.
+Print Assumptions C01_opt_mrows_repeat_refuted.
+
+Theorem C01_opt_mrows_repeat_shape_refuted :
+  exists s fuel m a b,
+    mwf (MRows m a b) = true /\ mrows (opt_mrows false s fuel m a b) <> mrows (MRows m a b).
+Proof. exact opt_mrows_repeat_shape_refuted. Qed.
+Print Assumptions C01_opt_mrows_repeat_shape_refuted.
+
+Theorem C01_opt_mrange_diag_shape_refuted :
+  exists s fuel m a b c d,
+    mwf (MRange m a b c d) = true /\
+    (mrows (opt_mrange false s fuel m a b c d) <> mrows (MRange m a b c d) /\
+     mcols (opt_mrange false s fuel m a b c d) <> mcols (MRange m a b c d)).
+Proof. exact opt_mrange_diag_shape_refuted. Qed.
+Print Assumptions C01_opt_mrange_diag_shape_refuted.
+
+Theorem C01_opt_mrange_diag_refuted :
+  exists s fuel m a b c d i j,
+    mwf (MRange m a b c d) = true /\ (i < mrows (MRange m a b c d))%nat /\ (j < mcols (MRange m a b c d))%nat /\
+    mden s (opt_mrange false s fuel m a b c d) i j <> mden s (MRange m a b c d) i j.
+Proof. exact opt_mrange_diag_refuted. Qed.
+Print Assumptions C01_opt_mrange_diag_refuted.
